@@ -11,7 +11,7 @@ import time
 
 VERIF = os.path.dirname(os.path.dirname(os.path.abspath(__file__)))
 REPO = os.environ.get('OXA_REPO', '/repo')
-CACHE = os.path.join(VERIF, '.cache')
+CACHE = os.environ.get('OXA_CACHE') or os.path.join(VERIF, '.cache')
 DRIVER_DIR = os.path.join(VERIF, 'mirfacts')
 DRIVER = os.path.join(DRIVER_DIR, 'target', 'debug', 'mirfacts')
 TARGET = os.path.join(CACHE, 'target')
